@@ -66,3 +66,44 @@ pub fn concatenated(version: &str, zones: &[(String, Vec<u8>)]) -> Vec<u8> {
     }
     out
 }
+
+/// A TZif version-2 file from explicit local time types, transitions (instant, type index; sorted,
+/// within i32 range) and a POSIX TZ footer. Type 0 is in force before the first transition.
+pub fn build_tzif(types: &[(String, i32, bool)], trans: &[(i64, u8)], footer: &str) -> Vec<u8> {
+    let mut desig: Vec<u8> = vec![];
+    let mut idx: Vec<u8> = vec![];
+    for (abbr, _, _) in types {
+        idx.push(desig.len() as u8);
+        desig.extend_from_slice(abbr.as_bytes());
+        desig.push(0);
+    }
+    let mut out = vec![];
+    for v2 in [false, true] {
+        out.extend_from_slice(b"TZif");
+        out.push(b'2');
+        out.extend_from_slice(&[0u8; 15]);
+        for c in [0u32, 0, 0, trans.len() as u32, types.len() as u32, desig.len() as u32] {
+            out.extend_from_slice(&c.to_be_bytes());
+        }
+        for (t, _) in trans {
+            if v2 {
+                out.extend_from_slice(&t.to_be_bytes());
+            } else {
+                out.extend_from_slice(&(*t as i32).to_be_bytes());
+            }
+        }
+        for (_, ty) in trans {
+            out.push(*ty);
+        }
+        for (i, (_, off, dst)) in types.iter().enumerate() {
+            out.extend_from_slice(&off.to_be_bytes());
+            out.push(*dst as u8);
+            out.push(idx[i]);
+        }
+        out.extend_from_slice(&desig);
+    }
+    out.push(b'\n');
+    out.extend_from_slice(footer.as_bytes());
+    out.push(b'\n');
+    out
+}
